@@ -63,6 +63,11 @@ def gen_case(rng, tier, i):
         for sp in prog["stats"]:
             if sp["kind"] == "tally" and sp.get("watch"):
                 sp["watch"] = "reset3"
+    if i % 3 == 2:
+        # statistics without a producer are fed by handing them their default data event directly (notify) instead of register()
+        for sp in prog["stats"]:
+            if sp.get("via") in (None, "register") and sp["kind"] in ("counter", "tally", "wtally", "persistent"):
+                sp["via"] = "notify"
     if i % 7 == 2:
         prog["empty_container_model"] = True      # the model object is falsy (an empty container with __len__)
     case = {"prog": prog, "pauses": [rng.randint(1, 6) for _ in range(rng.choice([0, 0, 1, 2]))]}
@@ -248,7 +253,7 @@ def run_case(case, ctx):
             # observations made at exactly the warm-up time *before* the warm-up notification (priority-10 events scheduled
             # earlier, construct_model): the statement can be read either way, so both readings are acceptable oracles
             edge = [r for i, r in obs if i < wi and r[2] == warm]
-            conv = (lambda v: float(v)) if via == "event" else (lambda v: v)
+            conv = (lambda v: float(v)) if via in ("event", "notify") else (lambda v: v)
             if edge:
                 ctx.count("statistics_with_an_observation_at_the_warmup_instant_before_the_notification")
                 verdicts = []
